@@ -576,7 +576,11 @@ func c01NewWorld(k *c01Case) (*c01World, error) {
 		provider.WithAuthorizationCodeGrant(),
 		provider.WithRefreshTokenGrant(func(*goidc.Client, goidc.GrantInfo) bool { return true }, 6000),
 		provider.WithCIBAGrant(
-			func(_ context.Context, s *goidc.AuthnSession) error { s.SetUserID("user1"); s.GrantScopes(s.Scopes); return nil },
+			func(_ context.Context, s *goidc.AuthnSession) error {
+				s.SetUserID("user1")
+				s.GrantScopes(s.Scopes)
+				return nil
+			},
 			func(_ context.Context, s *goidc.AuthnSession) error { return nil },
 			goidc.CIBATokenDeliveryModePoll),
 		provider.WithJWTBearerGrant(func(r *http.Request, a string) (goidc.JWTBearerGrantInfo, error) {
@@ -639,19 +643,40 @@ func c01NewWorld(k *c01Case) (*c01World, error) {
 		return nil, err
 	}
 	w.prov = &p
-	// seed the storage the flows need (for client c1)
+	// seed the storage the flows need: the code / refresh token / auth_req_id / access token belong to
+	// the client the request names (c1, unless every identification in the request names c2)
+	owner := "c1"
+	{
+		var ids []int
+		if k.Req.FormID != 0 {
+			ids = append(ids, k.Req.FormID)
+		}
+		if k.Req.Basic != nil && k.Req.Basic[0] != 0 {
+			ids = append(ids, k.Req.Basic[0])
+		}
+		if k.Req.AKind == "AJws" && k.Req.A.Iss != nil {
+			ids = append(ids, *k.Req.A.Iss)
+		}
+		all2 := len(ids) > 0
+		for _, i := range ids {
+			all2 = all2 && i == 2
+		}
+		if all2 {
+			owner = "c2"
+		}
+	}
 	now := int(time.Now().Unix())
 	bg := context.Background()
 	switch k.Entry {
 	case "EpAuthorizationCode":
-		s := &goidc.AuthnSession{ID: "sess-1", ClientID: "c1", Subject: "user1", AuthCode: "the-authorization-code-0123456789", GrantedScopes: "scope1",
+		s := &goidc.AuthnSession{ID: "sess-1", ClientID: owner, Subject: "user1", AuthCode: "the-authorization-code-0123456789", GrantedScopes: "scope1",
 			ExpiresAtTimestamp: now + 600, CreatedAtTimestamp: now}
 		s.RedirectURI = "https://client.example/cb"
 		s.Scopes = "scope1"
 		s.ResponseType = goidc.ResponseTypeCode
 		_ = w.stores.A.Save(bg, s)
 	case "EpCibaGrant":
-		s := &goidc.AuthnSession{ID: "sess-2", ClientID: "c1", Subject: "user1", CIBAAuthID: "the-auth-req-id-0123456789", GrantedScopes: "scope1",
+		s := &goidc.AuthnSession{ID: "sess-2", ClientID: owner, Subject: "user1", CIBAAuthID: "the-auth-req-id-0123456789", GrantedScopes: "scope1",
 			ExpiresAtTimestamp: now + 600, CreatedAtTimestamp: now}
 		s.Scopes = "scope1"
 		_ = w.stores.A.Save(bg, s)
@@ -659,13 +684,13 @@ func c01NewWorld(k *c01Case) (*c01World, error) {
 		g := &goidc.GrantSession{ID: "grant-1", TokenID: "old-token-id", RefreshToken: c01Refresh, LastTokenExpiresAtTimestamp: now + 300,
 			CreatedAtTimestamp: now, ExpiresAtTimestamp: now + 6000}
 		g.GrantType = goidc.GrantAuthorizationCode
-		g.Subject, g.ClientID, g.ActiveScopes, g.GrantedScopes = "user1", "c1", "scope1", "scope1"
+		g.Subject, g.ClientID, g.ActiveScopes, g.GrantedScopes = "user1", owner, "scope1", "scope1"
 		_ = w.stores.G.Save(bg, g)
 	case "EpIntrospect", "EpRevoke":
 		g := &goidc.GrantSession{ID: "grant-2", TokenID: c01Opaque, LastTokenExpiresAtTimestamp: now + 300,
 			CreatedAtTimestamp: now, ExpiresAtTimestamp: now + 300}
 		g.GrantType = goidc.GrantClientCredentials
-		g.Subject, g.ClientID, g.ActiveScopes, g.GrantedScopes = "c1", "c1", "scope1", "scope1"
+		g.Subject, g.ClientID, g.ActiveScopes, g.GrantedScopes = owner, owner, "scope1", "scope1"
 		_ = w.stores.G.Save(bg, g)
 	}
 	return w, nil
@@ -1364,6 +1389,14 @@ func c01Combos(ctx *RunCtx, n int) []*c01Case {
 		}()
 		if !ok || (k.Req.AKind == "AJws" && k.Req.A == nil) {
 			continue
+		}
+		if a := k.Req.A; k.Req.AKind == "AJws" {
+			// the combination must still name material that exists
+			_, isKey := c01Material_().keys[a.SignerKey]
+			_, isSecret := c01Secrets[a.SignerKey]
+			if (a.Signer == "priv" || a.Signer == "hpub") && !isKey || a.Signer == "hsecret" && !isSecret {
+				continue
+			}
 		}
 		k.Note = fmt.Sprintf("%s / %s / %s", strings.TrimPrefix(entry, "Ep"), strings.TrimPrefix(method, "M"), strings.Join(names, " + "))
 		out = append(out, k)
